@@ -63,6 +63,9 @@ _CURRENT = None      # the World receiving recorded __finalize__ calls
 # operation -> method names pandas 3.0.6 passes to TableDataFrame.__finalize__ (union over the data paths seen in
 # thorough runs of seeds 0-3); a difference is reported in the evidence notes, it is not an alarm
 FINALIZE_TABLE = {
+    "concat_late_shared": ["concat"],
+    "concat_late_clash": ["concat"],
+    "assign_retype": ["copy"],
     "T": ["transpose"],
     "abs": ["None", "take"],
     "add_plain": ["None", "take"],
@@ -207,6 +210,7 @@ class World:
         self.dead = None          # reason why mirroring stopped
         self.calls = []           # recorded __finalize__ calls (observations of pandas + outcome)
         self.locs = {}
+        self.flips = []           # a refused consultation that was accepted when simply repeated
 
     def loc_tok(self, loc):
         return f"L{loc.row}"
@@ -295,6 +299,21 @@ class World:
             self.push(step, {"exc": type(e).__name__})
             if self.dead is None:
                 self.dead = "consultation raised (partial register update is not mirrored)"
+            # the verdict must not flip without a change of the frame: ask again, and once more after a no-op
+            before = frame_json(df)
+            for attempt in ("repeated at once", "repeated after a no-op"):
+                if attempt.endswith("no-op"):
+                    len(df), df.shape, list(df.columns)
+                try:
+                    get_table_info(df)
+                except Exception:  # noqa: BLE001 — still refused, as it must be
+                    continue
+                if frame_json(df) == before:
+                    info_now = df.__dict__.get("_table_data")
+                    self.flips.append({"first": type(e).__name__, "then": "accepted, " + attempt,
+                                       "frame": before,
+                                       "units": [[tok(l), c.unit] for l, c in info_now.columns.items()]})
+                break
             return type(e).__name__
         self.push(step, "ok")
         return None
@@ -604,6 +623,23 @@ def _ops():
     def _(rng, d, mk):
         u = mk(clash=True)
         return [d, u], lambda: pd.concat([d, u])
+
+    @op("concat_late_shared", True, 3)
+    def _(rng, d, mk):
+        fs = [d] + mk.all
+        return fs, lambda: pd.concat(fs, ignore_index=True)
+
+    @op("concat_late_clash", True, 3)
+    def _(rng, d, mk):
+        fs = [d] + mk.all
+        return fs, lambda: pd.concat(fs, ignore_index=True)
+
+    @op("assign_retype", True)
+    def _(rng, d, mk):
+        cand = [c for c in d.columns if d[c].dtype.kind in "if"] or list(d.columns)
+        c = rng.choice(cand)
+        vals = [rng.choice(["short", "long"]) for _ in range(len(d))]
+        return [d], lambda: d.assign(**{c: vals, "width": [0.5] * len(d)})
 
     @op("merge_key", True, 2)
     def _(rng, d, mk):
@@ -1167,7 +1203,25 @@ def run_case(seed, stream, index, ops):
     hdr = header_of(t0)
     n0 = len(t0.df)
     for i, (oi, _) in enumerate(plan):
-        if ops[oi][2] > 1:
+        if ops[oi][2] > 2:
+            # 2-3 further tables sharing columns (m1, m2) the first table lacks; with "clash" two of the
+            # LATER tables disagree on the unit of m1 (whichever pair), otherwise all agree
+            kind = ops[oi][0]
+            k = rng.choice([2, 3])
+            have_m1 = sorted(rng.sample(range(k), 2)) if k == 3 and rng.random() < 0.5 else list(range(k))
+            clash_at = rng.choice(have_m1[1:]) if kind == "concat_late_clash" else None
+            us = []
+            for j in range(k):
+                cols = [hdr[0]] if rng.random() < 0.7 else []
+                if j in have_m1:
+                    cols.append(("m1", "f", "g" if j == clash_at else "kg"))
+                if rng.random() < 0.6 or not cols:
+                    cols.append(("m2", "i", "N"))
+                u = gen_table(rng, loc_counter, name="u%d_%d" % (i, j), cols=cols)
+                world.add_table(u)
+                us.append(u)
+            extra.append(us)
+        elif ops[oi][2] > 1:
             kind = ops[oi][0]
             nrows = n0 if "cols" in kind or kind == "join" else None
             if kind in ("concat_rows", "concat_rows_3", "concat_cols_dup"):
@@ -1192,7 +1246,12 @@ def run_case(seed, stream, index, ops):
             extra.append(u)
         else:
             extra.append(None)
-    frames = [t0.df] + [u.df for u in extra if u is not None]
+    frames = [t0.df]
+    for u in extra:
+        if isinstance(u, list):
+            frames += [x.df for x in u]
+        elif u is not None:
+            frames.append(u.df)
     cur = t0.df
     _CURRENT = world
     try:
@@ -1204,6 +1263,7 @@ def run_case(seed, stream, index, ops):
 
             def mk(**kw):
                 return u.df
+            mk.all = [x.df for x in u] if isinstance(u, list) else []
             try:
                 sources, thunk = build(rng, cur, mk)
             except Exception as e:  # noqa: BLE001 — generator could not build arguments for this frame
@@ -1286,6 +1346,9 @@ def run_case(seed, stream, index, ops):
         world.observe_all()
     finally:
         _CURRENT = None
+    for fl in world.flips:
+        res.fail("a frame refused as a table was accepted when consulted again, unchanged (mislabelled table)",
+                 fl, "refused again", key="refusal_flips")
     return res
 
 
